@@ -709,6 +709,10 @@ class Prettier:
 			フォーマット文字列
 		"""
 		pretty_patterns = ' '.join([cls._pretty_pattern_entry(pattern) for pattern in patterns.entries])
+		# 要素が1つの非リピートグループは括弧「(...)」に由来するため、括弧を復元する
+		if patterns.rep == Repeators.NoRepeat and len(patterns.entries) == 1:
+			return f'({pretty_patterns})'
+
 		return cls._deco_repeat(pretty_patterns, patterns.rep)
 
 	@classmethod
